@@ -28,7 +28,25 @@ def canon(value: Any) -> str:
         return "{" + ",".join(f"{k}:{v}" for k, v in items) + "}"
     if isinstance(value, (set, frozenset)):
         return "{" + ",".join(sorted(canon(v) for v in value)) + "}"
+    if isinstance(value, Opaque):
+        return f"<Opaque:{value.tag}>"
     return f"<{type(value).__name__}>"
+
+
+class Opaque:
+    """A legal but unpicklable, uncopyable value (like a lock, a client object or a lambda). Equal only to itself;
+    its tag makes it comparable in canonical form."""
+
+    __slots__ = ("tag",)
+
+    def __init__(self, tag: int) -> None:
+        self.tag = tag
+
+    def __reduce_ex__(self, protocol: int) -> Any:
+        raise TypeError("cannot pickle 'Opaque' object")
+
+    def __repr__(self) -> str:
+        return f"<Opaque:{self.tag}>"
 
 
 def digest(value: Any, n: int = 8) -> str:
